@@ -456,6 +456,9 @@ func generate(thorough bool, sel func(int) bool, count bool) *generator {
 	// ---------------- L9 ----------------
 	g.history(serFam)
 
+	// ---------------- L10 ----------------
+	g.boundaryFilters(maxEntries)
+
 	// ---------------- L5 ----------------
 	g.special(serFam, timeFam)
 
@@ -927,6 +930,72 @@ func (g *generator) special(serFam, timeFam *dbFamily) {
 		for _, r := range []int{5, 15} {
 			for _, d := range serFam.dbs[r] {
 				g.add("L5-matchers", &Query{Matchers: ms, Fn: "count_over_time", RangeS: r, Agg: "sum", AGroup: by(false, "a")}, d, window{0, 10}.params(r, int64(r)*1000), false)
+			}
+		}
+	}
+}
+
+// boundaryPool (L10): lines at the boundary of "every line": the empty line, a one-character line, a line that is only
+// a newline, next to ordinary lines, in two selected streams (one of type "both") and two buckets.  metrics_15s is
+// derived from these samples by the materialized view like everywhere else: it counts every line, the empty one too.
+var boundaryPool = []poolEntry{
+	{0, 2, 5, 0, ``},
+	{0, 3, 5, 0, `k`},
+	{0, 4, 5, 0, "\n"},
+	{0, 6, 5, 0, `{"v":1,"m":"k"}`},
+	{0, 7, 5, 0, ``},
+	{2, 2, 5, 0, ``},
+	{2, 6, 5, 0, "q\nk"},
+}
+
+// boundaryFilters (L10): line filters that pass "almost every" line — the atoms a planner may want to recognise as a
+// no-op — in all four operators, alone and in two-stage pipelines, on the query shapes that may take the metrics_15s
+// shortcut (rate / count_over_time, range a multiple of 15 s), the same shapes at ranges that may not (5 s, 10 s) and
+// the byte functions (never), on databases whose selected streams hold the boundary lines.  Added after seed `C08-g`
+// (`|~ ".+"` dropped as pass-everything on the shortcut) slipped through: the line-filter alphabet had one substring,
+// one regex and the empty pattern, and no database had an empty line.
+func (g *generator) boundaryFilters(maxEntries int) {
+	ranges := []int{10, 15, 60} // 10 s: not a multiple of 15 s, samples path
+	if g.thorough {
+		ranges = []int{5, 10, 15, 60}
+	}
+	fam := buildFamily("lines", boundaryPool, maxEntries, ranges, true)
+	var pipes [][]Stage
+	for _, val := range []string{"", ".*", ".+", "(?s).*", "(?s).+", "(?-s).+", ".", ".?", "^", "$", "^$", "^.*$", "^.+$", "[^k]", "\\n", "\n"} {
+		for _, op := range []string{"|~", "!~"} {
+			pipes = append(pipes, []Stage{{Kind: "line", Op: op, Val: val}})
+		}
+	}
+	for _, val := range []string{"", "\n", ".", ".+"} { // substrings: "." and ".+" are literals here
+		for _, op := range []string{"|=", "!="} {
+			if val == "" {
+				continue // L5-empty-filter on the series pool; below on this pool in two-stage pipelines
+			}
+			pipes = append(pipes, []Stage{{Kind: "line", Op: op, Val: val}})
+		}
+	}
+	lf := func(op, val string) Stage { return Stage{Kind: "line", Op: op, Val: val} }
+	pipes = append(pipes,
+		[]Stage{lf("|=", "")}, []Stage{lf("!=", "")},
+		[]Stage{lf("|=", ""), lf("|~", ".+")}, []Stage{lf("|~", ".+"), lf("|=", "")},
+		[]Stage{lf("|~", ""), lf("|~", ".*")}, []Stage{lf("|~", ".*"), lf("!~", ".+")},
+		[]Stage{lf("|~", ""), lf("|=", "k")}, []Stage{lf("|=", ""), lf("!=", "")},
+	)
+	for _, r := range ranges {
+		for _, pipe := range pipes {
+			qs := []*Query{
+				{Matchers: selJ, Stages: pipe, Fn: "count_over_time", RangeS: r},
+				{Matchers: selJ, Stages: pipe, Fn: "rate", RangeS: r, Agg: "sum", AGroup: by(false, "a")},
+				{Matchers: selJ, Stages: pipe, Fn: "bytes_over_time", RangeS: r},
+			}
+			if g.thorough {
+				qs = append(qs, &Query{Matchers: selJ, Stages: pipe, Fn: "bytes_rate", RangeS: r},
+					&Query{Matchers: selJ, Stages: pipe, Fn: "count_over_time", RangeS: r, RCmp: &Cmp{">", "1"}})
+			}
+			for _, q := range qs {
+				for _, d := range fam.dbs[r] {
+					g.add("L10", q, d, window{0, 10}.params(r, int64(r)*1000), false)
+				}
 			}
 		}
 	}
